@@ -646,7 +646,7 @@ void register_c10(std::vector<Profile>& v)
   p.judge = judge_c10;
   p.rule =
     "one case = one seeded plan: histories from 1-3 threads over 1-3 loggers with 1-3 sinks, with faults attached to chosen "
-    "statements (sink write throws on sink k, sink flush throws, fwrite ENOSPC on a real FileSink, run-time format mismatch, "
+    "statements (sink write throws on sink k, sink flush throws, fwrite ENOSPC on a real FileSink / RotatingFileSink, run-time format mismatch, "
     "user formatter throwing std::runtime_error / int / a struct, LOG_BACKTRACE without init), a random subset of fault kinds "
     "enabled per run, flushes after faulty regions; distinct = distinct event hash; non-trivial = >=1 fault fired and >=1 preemption";
   p.real_components = {"BackendWorker decode/format/dispatch error paths", "catch blocks in run()/_process_lowest_timestamp_transit_event/"
